@@ -122,6 +122,9 @@ def gen_case(seed, i, mode):
         'vanish_at': r.choice(('idle', 'after_send', 'in_request', 'after_reply')),
         'faults': {}, 'closer': closer, 'exit_in_prestart': r.random() < 0.06,
         'connect_delays': [r.choice((0, 0, 0, 0, 3, 6, 12))],
+        # the editor's "restart server": the client is used again right after close(), while the old server
+        # process may still be on its way out
+        'session2_at_once': r.random() < 0.5,
     }
     if mode == 'launchfail':
         f = {}
@@ -172,6 +175,9 @@ def plan_pb(tier, scale):
     for w in range(nw):
         for gran in ('line', 'opcode'):
             units.append({'kind': 'pb', 'w': w, 'gran': gran, 'delay': 0.35, 'session2': 'close', 'bound': 1})
+    for w in (0, 2):
+        # the same with the client used again at once after close(), the old server still exiting
+        units.append({'kind': 'pb', 'w': w, 'gran': 'line', 'delay': 0.0, 'session2': 'close', 'bound': 1, 'at_once': True})
     # deeper bounds are sharded by the index of the first deviation
     deep = [(w, 'line', 2, 4) for w in range(nw)] + [(w, 'opcode', 2, 16) for w in (0, 2, 4)]
     if tier == 'thorough':
@@ -185,6 +191,8 @@ def plan_pb(tier, scale):
 
 def run_pb_unit(unit):
     base = pb_base(unit['w'], unit['gran'], unit['delay'], unit['session2'])
+    if unit.get('at_once'):
+        base['session2_at_once'] = True
     stats = {'runs': 0, 'steps': 0}
     vios = []
     keys = set()
@@ -457,13 +465,21 @@ class Run(object):
         if not ok:
             e, where, tb = res
             self.vio('C16/exception/close/%s:%s' % (type(e).__name__, where), tb[-1500:])
-        if used:
-            gone = k.block(lambda: not self.live_procs(), 5.0, ('harness', 'wait-exit-after-close'))
+        at_once = bool(case.get('session2_at_once')) and case.get('session2', 'none') != 'none'
+        old_procs = list(w.procs)
+
+        def old_servers_gone():
+            gone = k.block(lambda: not any(p.alive for p in old_procs), 5.0, ('harness', 'wait-exit-after-close'))
             if not gone:
                 self.vio('C16/close/server-still-running',
                          'server process still alive 5 simulated seconds after close()')
-                for p in self.live_procs():
-                    p.kill()
+                for p in old_procs:
+                    if p.alive:
+                        p.kill()
+        if used and not at_once:
+            old_servers_gone()
+        elif used and any(p.alive for p in old_procs):
+            w.count('client_reused_while_old_server_exits')
         if hasattr(env, 'conn'):
             self.vio('C16/close/conn-kept', 'Environment still has a conn attribute after close()')
             try:
@@ -525,6 +541,9 @@ class Run(object):
             self.vio('C16/liveness/session2-call-not-finished', 'second-session call still running after 120 simulated seconds: %r'
                      % ((t2.wait_label or t2.last_label),))
             return
+        if used and at_once:
+            # (not stricter than the property: the five seconds start here, after the second session's first call)
+            old_servers_gone()
         launched = len(w.procs) - before
         if launched != 1:
             self.vio('C16/launch-count/session2/%d' % launched, '%d launches for the session after close()' % launched)
